@@ -34,6 +34,9 @@ pub struct Interpreter {
     pub(crate) script_index: usize,
     pub(crate) state: State,
     pub(crate) tx_script: Option<TxScript>,
+    /// Number of elements spliced into `script_bits` from executed conditional branches so far
+    #[serde(default)]
+    pub(crate) spliced_elements: usize,
 }
 
 impl Interpreter {
@@ -43,6 +46,7 @@ impl Interpreter {
             script_index: 0,
             state: State::default(),
             tx_script: Some(TxScript { tx, input_index: txin }),
+            spliced_elements: 0,
         }
     }
 
@@ -94,6 +98,7 @@ impl Interpreter {
             script_index: 0,
             state: State::default(),
             tx_script: None,
+            spliced_elements: 0,
         }
     }
 
